@@ -854,14 +854,43 @@ Proof.
 Qed.
 
 (* ------------------------------------------------------------------ recovery from a geo-referenced array *)
-Lemma georef_crs_from_attrs yd xd fyl fxl ay ax Py P gm0 ccn iy ix x :
-  georef yd xd fyl fxl ay ax Py P gm0 ccn iy ix x ->
+(** what the recovery itself needs (weaker than [georef], which is the part that
+    histories preserve): used for arrays taken out of a reprojected Dataset *)
+Record georef_w (yd xd : string) (fyl fxl : Z -> Q) (ay ax : attrs) (Py P : option aff)
+       (ccn : option (string * coord)) (iy ix : list Z) (x : xobj) : Prop := {
+  gw_da : x_is_ds x = false;
+  gw_sd : spatial_dims (map fst (x_dims x)) = Some (yd, xd);
+  gw_ny : lookup yd (x_dims x) = Some (zlen iy);
+  gw_nx : lookup xd (x_dims x) = Some (zlen ix);
+  gw_cy : lookup yd (x_coords x) = Some (Coord [yd] (map fyl iy) ay Py);
+  gw_cx : lookup xd (x_coords x) = Some (Coord [xd] (map fxl ix) ax P);
+  gw_at : lookup "crs" (x_attrs x) = None /\ lookup "crs_wkt" (x_attrs x) = None;
+  gw_ccs : exists nm, locate_crs_coords (x_gm x) (x_attrs x) (x_coords x) =
+                      match ccn with Some p => [(nm, snd p)] | None => [] end
+}.
+
+Lemma georef_weaken yd xd fyl fxl ay ax Py P gm0 ccn iy ix x :
+  georef yd xd fyl fxl ay ax Py P gm0 ccn iy ix x -> georef_w yd xd fyl fxl ay ax Py P ccn iy ix x.
+Proof.
+  intros G. constructor.
+  - apply (gr_da _ _ _ _ _ _ _ _ _ _ _ _ _ G).
+  - apply (gr_sd _ _ _ _ _ _ _ _ _ _ _ _ _ G).
+  - apply (gr_ny _ _ _ _ _ _ _ _ _ _ _ _ _ G).
+  - apply (gr_nx _ _ _ _ _ _ _ _ _ _ _ _ _ G).
+  - apply (gr_cy _ _ _ _ _ _ _ _ _ _ _ _ _ G).
+  - apply (gr_cx _ _ _ _ _ _ _ _ _ _ _ _ _ G).
+  - destruct (gr_at _ _ _ _ _ _ _ _ _ _ _ _ _ G) as (_ & A2 & A3); auto.
+  - eapply georef_crs_coords; eauto.
+Qed.
+
+Lemma georef_crs_from_attrs yd xd fyl fxl ay ax Py P ccn iy ix x :
+  georef_w yd xd fyl fxl ay ax Py P ccn iy ix x ->
   get_crs_from_attrs x (yd, xd) = hd_error (attr_crs_candidates ay ++ attr_crs_candidates ax).
 Proof.
-  intros G. unfold get_crs_from_attrs. rewrite (gr_da _ _ _ _ _ _ _ _ _ _ _ _ _ G).
-  destruct (gr_at _ _ _ _ _ _ _ _ _ _ _ _ _ G) as (_ & A2 & A3).
+  intros G. unfold get_crs_from_attrs. rewrite (gw_da _ _ _ _ _ _ _ _ _ _ _ _ G).
+  destruct (gw_at _ _ _ _ _ _ _ _ _ _ _ _ G) as (A2 & A3).
   unfold attr_crs_candidates at 1. rewrite A2, A3. simpl.
-  rewrite (gr_cy _ _ _ _ _ _ _ _ _ _ _ _ _ G), (gr_cx _ _ _ _ _ _ _ _ _ _ _ _ _ G). simpl.
+  rewrite (gw_cy _ _ _ _ _ _ _ _ _ _ _ _ G), (gw_cx _ _ _ _ _ _ _ _ _ _ _ _ G). simpl.
   rewrite app_nil_r. reflexivity.
 Qed.
 
@@ -870,8 +899,8 @@ Section Recover.
   Hypothesis Hfx : forall i, fxl i == inject_Z i * rx + (tx + rx / 2).
   Hypothesis Hfy : forall i, fyl i == inject_Z i * ry + (ty + ry / 2).
 
-  Lemma locate_georef fx tol yd xd ay ax Py P gm0 ccn px qx mx py qy my x :
-    georef yd xd fyl fxl ay ax Py P gm0 ccn (ap py qy my) (ap px qx mx) x ->
+  Lemma locate_georef_w fx tol yd xd ay ax Py P ccn px qx mx py qy my x :
+    georef_w yd xd fyl fxl ay ax Py P ccn (ap py qy my) (ap px qx mx) x ->
     1 <= mx -> 1 <= my ->
     let crs_coord := option_map snd ccn in
     let gcp := match ccn with Some p => extract_gcps (snd p) | None => None end in
@@ -898,12 +927,12 @@ Section Recover.
       (my = 1 -> exists r, fallback_of fx tol crs_coord (is_some gcp) P' = Ok (Some r) /\ fe T == snd r).
   Proof.
     intros G Hmx Hmy crs_coord gcp P' c Hfb.
-    pose proof (gr_ny _ _ _ _ _ _ _ _ _ _ _ _ _ G) as Hny. rewrite zlen_ap in Hny by lia.
-    pose proof (gr_nx _ _ _ _ _ _ _ _ _ _ _ _ _ G) as Hnx. rewrite zlen_ap in Hnx by lia.
-    destruct (georef_crs_coords _ _ _ _ _ _ _ _ _ _ _ _ _ G) as (nm & Hcc).
-    rewrite (locate_compute fx tol x (yd, xd) my mx (gr_sd _ _ _ _ _ _ _ _ _ _ _ _ _ G) Hny Hnx).
+    pose proof (gw_ny _ _ _ _ _ _ _ _ _ _ _ _ G) as Hny. rewrite zlen_ap in Hny by lia.
+    pose proof (gw_nx _ _ _ _ _ _ _ _ _ _ _ _ G) as Hnx. rewrite zlen_ap in Hnx by lia.
+    destruct (gw_ccs _ _ _ _ _ _ _ _ _ _ _ _ G) as (nm & Hcc).
+    rewrite (locate_compute fx tol x (yd, xd) my mx (gw_sd _ _ _ _ _ _ _ _ _ _ _ _ G) Hny Hnx).
     cbv zeta. rewrite Hcc.
-    rewrite (georef_crs_from_attrs _ _ _ _ _ _ _ _ _ _ _ _ _ G).
+    rewrite (georef_crs_from_attrs _ _ _ _ _ _ _ _ _ _ _ _ G).
     assert (ET : exists T,
       extract_transform fx tol (x_coords x) (yd, xd) crs_coord (is_some gcp) = Ok (Some (compose_tr P' T)) /\
       fb T == 0 /\ fd T == 0 /\
@@ -917,7 +946,7 @@ Section Recover.
     { exact (extract_transform_ap fxl fyl tx rx ty ry Hfx Hfy fx tol (x_coords x) yd xd
                (Coord [yd] (map fyl (ap py qy my)) ay Py) (Coord [xd] (map fxl (ap px qx mx)) ax P)
                crs_coord (is_some gcp) px qx mx py qy my
-               (gr_cy _ _ _ _ _ _ _ _ _ _ _ _ _ G) (gr_cx _ _ _ _ _ _ _ _ _ _ _ _ _ G)
+               (gw_cy _ _ _ _ _ _ _ _ _ _ _ _ G) (gw_cx _ _ _ _ _ _ _ _ _ _ _ _ G)
                eq_refl eq_refl Hmx Hmy Hfb). }
     destruct ET as (T & E & Props).
     exists T. split; [|exact Props].
@@ -925,6 +954,33 @@ Section Recover.
     - rewrite E. simpl. destruct (extract_gcps cc); reflexivity.
     - rewrite E. reflexivity.
   Qed.
+  Lemma locate_georef fx tol yd xd ay ax Py P gm0 ccn px qx mx py qy my x :
+    georef yd xd fyl fxl ay ax Py P gm0 ccn (ap py qy my) (ap px qx mx) x ->
+    1 <= mx -> 1 <= my ->
+    let crs_coord := option_map snd ccn in
+    let gcp := match ccn with Some p => extract_gcps (snd p) | None => None end in
+    let P' := if is_some gcp then None else P in
+    let c := match ccn with
+             | Some p => extract_crs (snd p)
+             | None => hd_error (attr_crs_candidates ay ++ attr_crs_candidates ax)
+             end in
+    ((2 <= mx /\ 2 <= my) \/ exists r, fallback_of fx tol crs_coord (is_some gcp) P' = Ok (Some r)) ->
+    exists T,
+      locate_geo_info fx tol x =
+        Ok (GeoState (Some (yd, xd)) c (Some (compose_tr P' T))
+                     (match gcp with
+                      | Some pts => Some (AGcp my mx (compose_tr P' T) pts c)
+                      | None => Some (ABox (GBox my mx (compose_tr P' T) c))
+                      end)) /\
+      fb T == 0 /\ fd T == 0 /\
+      (forall j k, 0 <= j < my -> 0 <= k < mx ->
+         fst (aff_apply T (inject_Z k + (1 # 2)) (inject_Z j + (1 # 2))) == fxl (px + qx * k) /\
+         snd (aff_apply T (inject_Z k + (1 # 2)) (inject_Z j + (1 # 2))) == fyl (py + qy * j)) /\
+      (2 <= mx -> fa T == rx * inject_Z qx /\ fc T == tx + rx * inject_Z px + rx / 2 - rx * inject_Z qx / 2) /\
+      (2 <= my -> fe T == ry * inject_Z qy /\ ff T == ty + ry * inject_Z py + ry / 2 - ry * inject_Z qy / 2) /\
+      (mx = 1 -> exists r, fallback_of fx tol crs_coord (is_some gcp) P' = Ok (Some r) /\ fa T == fst r) /\
+      (my = 1 -> exists r, fallback_of fx tol crs_coord (is_some gcp) P' = Ok (Some r) /\ fe T == snd r).
+  Proof. intros G. apply (locate_georef_w fx tol yd xd ay ax Py P ccn px qx mx py qy my x). eapply georef_weaken; eauto. Qed.
 End Recover.
 
 (* ================================================================== wrap_xr produces a geo-referenced array *)
@@ -1541,8 +1597,8 @@ Definition st_attrs (r : Q) (c : option crs) : attrs :=
   [("units", VOther); ("resolution", VNum r)] ++ cattrs_of c.
 
 Lemma georef_roundtrip_st tol t crs name yd xd Py x ny nx :
-  georef yd xd (label (ff t) (fe t)) (label (fc t) (fa t)) (st_attrs (fe t) crs) (st_attrs (fa t) crs)
-         Py None name (crs_coord_of name crs None (Some t)) (iota ny) (iota nx) x ->
+  georef_w yd xd (label (ff t) (fe t)) (label (fc t) (fa t)) (st_attrs (fe t) crs) (st_attrs (fa t) crs)
+           Py None (crs_coord_of name crs None (Some t)) (iota ny) (iota nx) x ->
   is_affine_st tol t = true -> 1 <= ny -> 1 <= nx ->
   ((2 <= ny /\ 2 <= nx) \/ (name <> None /\ crs <> None)) ->
   exists T,
@@ -1559,8 +1615,8 @@ Proof.
                  | None => hd_error (attr_crs_candidates (st_attrs (fe t) crs) ++ attr_crs_candidates (st_attrs (fa t) crs))
                  end = crs).
   { subst ccn. destruct name, crs; reflexivity. }
-  destruct (locate_georef (label (fc t) (fa t)) (label (ff t) (fe t)) (fc t) (fa t) (ff t) (fe t)
-              (label_spec _ _) (label_spec _ _) repaired tol yd xd _ _ Py None name ccn
+  destruct (locate_georef_w (label (fc t) (fa t)) (label (ff t) (fe t)) (fc t) (fa t) (ff t) (fe t)
+              (label_spec _ _) (label_spec _ _) repaired tol yd xd _ _ Py None ccn
               0 1 nx 0 1 ny x G Hnx Hny) as (T & E & P1 & P2 & P3 & P4 & P5 & P6 & P7).
   { destruct Hfb as [[? ?]|[Hn Hc]]; [left; auto|right].
     subst ccn. destruct name as [n|]; [|congruence]. destruct crs as [c|]; [|congruence].
@@ -1595,8 +1651,8 @@ Proof.
 Qed.
 
 Lemma georef_roundtrip_rot tol t crs name yd xd Py x ny nx :
-  georef yd xd pix_label pix_label [("units", VOther)] [("units", VOther)]
-         Py (Some t) name (crs_coord_of name crs None (Some t)) (iota ny) (iota nx) x ->
+  georef_w yd xd pix_label pix_label [("units", VOther)] [("units", VOther)]
+           Py (Some t) (crs_coord_of name crs None (Some t)) (iota ny) (iota nx) x ->
   1 <= ny -> 1 <= nx ->
   let c := match name with Some _ => crs | None => None end in
   exists T,
@@ -1613,8 +1669,8 @@ Proof.
                  | None => hd_error (attr_crs_candidates [("units", VOther)] ++ attr_crs_candidates [("units", VOther)])
                  end = c).
   { subst ccn c. destruct name, crs; reflexivity. }
-  destruct (locate_georef pix_label pix_label 0 1 0 1 pix_label_spec pix_label_spec repaired tol yd xd _ _
-              Py (Some t) name ccn 0 1 nx 0 1 ny x G Hnx Hny) as (T & E & P1 & P2 & P3 & P4 & P5 & P6 & P7).
+  destruct (locate_georef_w pix_label pix_label 0 1 0 1 pix_label_spec pix_label_spec repaired tol yd xd _ _
+              Py (Some t) ccn 0 1 nx 0 1 ny x G Hnx Hny) as (T & E & P1 & P2 & P3 & P4 & P5 & P6 & P7).
   { right. rewrite Hgcp. simpl. eexists; reflexivity. }
   rewrite Hgcp, Hcrs in E. simpl in E.
   exists (aff_mul t T). split; [exact E|].
@@ -1925,7 +1981,8 @@ Section ReprojectDa.
                   None None (mk_crs_coord cd None (Some t)) (out_attrs itol (x_attrs src) nd) kept
                   Hok ltac:(lia) ltac:(lia) (clean_out_attrs _ _ _) (keep_no_spatial_ref _ _ _) eq_refl eq_refl) as G.
     fold dy dx in G.
-    destruct (georef_roundtrip_st tol t (Some cd) (Some DEFAULT_CRS_COORD_NAME) dy dx None _ (g_ny dst) (g_nx dst) G Hst Hny Hnx)
+    destruct (georef_roundtrip_st tol t (Some cd) (Some DEFAULT_CRS_COORD_NAME) dy dx None _ (g_ny dst) (g_nx dst)
+                (georef_weaken _ _ _ _ _ _ _ _ _ _ _ _ _ G) Hst Hny Hnx)
       as (T & E & A).
     { right. split; congruence. }
     exists T. repeat (split; [reflexivity|]). split; [exact E | exact A].
@@ -1961,7 +2018,8 @@ Section ReprojectDa.
                   (Some t) (Some t) (mk_crs_coord cd None (Some t)) (out_attrs itol (x_attrs src) nd) kept
                   Hok ltac:(lia) ltac:(lia) (clean_out_attrs _ _ _) (keep_no_spatial_ref _ _ _) eq_refl eq_refl) as G.
     fold dy dx in G.
-    destruct (georef_roundtrip_rot tol t (Some cd) (Some DEFAULT_CRS_COORD_NAME) dy dx (Some t) _ (g_ny dst) (g_nx dst) G Hny Hnx)
+    destruct (georef_roundtrip_rot tol t (Some cd) (Some DEFAULT_CRS_COORD_NAME) dy dx (Some t) _ (g_ny dst) (g_nx dst)
+                (georef_weaken _ _ _ _ _ _ _ _ _ _ _ _ _ G) Hny Hnx)
       as (T & E & A).
     exists T. repeat (split; [reflexivity|]). split; [exact E | exact A].
   Qed.
